@@ -162,6 +162,11 @@ func (o *OutputCollector) EmitWithMetadata(batch arrow.RecordBatch, meta map[str
 
 // EmitArrays builds a RecordBatch from arrays using the output schema and emits it.
 func (o *OutputCollector) EmitArrays(arrays []arrow.Array, numRows int64) error {
+	if o.dataBatchIdx >= 0 {
+		// Refuse before building: Emit would reject the batch and nobody
+		// would release the record built here.
+		return fmt.Errorf("OutputCollector: only one data batch may be emitted per call")
+	}
 	s := o.schema
 	if o.ProcessSchema != nil {
 		s = o.ProcessSchema
@@ -173,6 +178,11 @@ func (o *OutputCollector) EmitArrays(arrays []arrow.Array, numRows int64) error 
 // EmitMap builds a 1-row RecordBatch from column name/value pairs using the
 // output schema and emits it. Values must be slices matching the schema types.
 func (o *OutputCollector) EmitMap(data map[string][]interface{}) error {
+	if o.dataBatchIdx >= 0 {
+		// Refuse before allocating: Emit would reject the batch and the
+		// arrays built below from the framework allocator would leak.
+		return fmt.Errorf("OutputCollector: only one data batch may be emitted per call")
+	}
 	mem := defaultAllocator()
 	schema := o.schema
 	if o.ProcessSchema != nil {
